@@ -155,6 +155,19 @@ def run(ctx: Ctx):
                     verdict, why = True, f"comprehension wrapped in {call_name(cpar)}()"
                 elif isinstance(comp, ast.SetComp):
                     verdict, why = True, "set comprehension"
+                elif isinstance(comp, ast.GeneratorExp) and isinstance(pm.get(comp), ast.For) and pm.get(comp).iter is comp:
+                    # a lazily filtered listing looped over directly: judged like a loop over the listing itself
+                    par_ = pm.get(comp)
+                    lv = {x.id for x in ast.walk(par_.target) if isinstance(x, ast.Name)}
+                    blk = pm.get(par_)
+                    after = None
+                    for fld in ("body", "orelse", "finalbody"):
+                        b_ = getattr(blk, fld, None)
+                        if isinstance(b_, list) and any(x is par_ for x in b_):
+                            after = b_[[i for i, x in enumerate(b_) if x is par_][0] + 1:]
+                    sinks = _body_sensitive_sinks(par_.body, lv, rd, after)
+                    verdict = not sinks
+                    why = (f"loop body has order-sensitive effect `{u(sinks[0])[:60]}`" if sinks else "loop body only folds / appends to a list that is sorted")
                 elif isinstance(comp, ast.GeneratorExp):
                     # a lazy stream of items: must be handed to the dispatcher (one output per item) or folded
                     st = pm.get(comp)
@@ -446,7 +459,7 @@ def _per_utterance_divisors(ctx: Ctx):
     sites = []
     for n in own_nodes(f.node):
         if isinstance(n, ast.BinOp) and isinstance(n.op, ast.Div):
-            rexprs = [n.right]
+            rexprs = [n.right, Inliner(f.node, rd).expand(n.right)]  # (`denom = 1 if ... else ref_len; ref_len = len(transcript)`)
             for x in ast.walk(n.right):
                 if isinstance(x, ast.Name):
                     rexprs += [d.value for d in rd.defs_of(x) if d.kind == "assign" and d.value is not None]
